@@ -112,6 +112,7 @@ type Engine struct {
 	curPos  token.Pos
 	threads *threadState
 	asserts int
+	threadRun bool
 	views   map[string]*Object
 	crypto  map[string]*Term
 	keyAuthor, keyOther *IfaceV
@@ -754,6 +755,15 @@ func (e *Engine) evalBlock(fr *Frame, b *ssa.BasicBlock, as []Arrival, route fun
 				gF := tb.And(cur, tb.Not(c), tb.Not(skip))
 				if !gF.IsFalse() {
 					route(b.Succs[1], e.mkArrival(fr, gF, b, b.Succs[1], 1))
+				}
+				return
+			}
+			if e.threads != nil && !c.IsConst() {
+				// thread mode: nothing is merged; the branch side is a decision of the exploration
+				if e.threads.impl.branch(c) {
+					route(b.Succs[0], e.mkArrival(fr, cur, b, b.Succs[0], 0))
+				} else {
+					route(b.Succs[1], e.mkArrival(fr, cur, b, b.Succs[1], 1))
 				}
 				return
 			}
